@@ -25,7 +25,7 @@ func propC01(c *Ctx) {
 		c.Violation("R1.1", "Converge/step-calls", conv.Pos(), fmt.Sprintf("expected one latest/load/insert/update call each, found %d/%d/%d/%d", len(lats), len(loads), len(inss), len(upds)))
 		return
 	}
-	ld, ins, upd, lat := loads[0], inss[0], upds[0], lats[0]
+	ld, ins, upd := loads[0], inss[0], upds[0]
 	loaded := extractOf(ld, 0)
 	insBlocks := ins.Call.Args[3]
 	c.Check("R1.1", "Converge/insert-gets-loaded-slice", ins.Pos(), loaded != nil && stripConv(m.reg.Resolve(stripConv(insBlocks))) == loaded,
@@ -51,19 +51,15 @@ func propC01(c *Ctx) {
 	c.Check("R1.1", "Converge/update-after-insert", upd.Pos(), m.dom(ins, upd) && m.dom(ld, ins), "load → insert → update execute in this order on every path")
 
 	c.Rule("R1.2", "the loaded range starts at recorded position + 1 and is linked against the hash recorded with that position", 2)
-	localNum, localHash := extractOf(lat, 0), extractOf(lat, 1)
-	start := ld.Call.Args[4]
-	okStart := false
-	if b, ok := start.(*ssa.BinOp); ok && b.Op == token.ADD {
-		if n, ok := constInt(b.Y); ok && n == 1 && b.X == localNum {
-			okStart = true
-		}
-		if n, ok := constInt(b.X); ok && n == 1 && b.Y == localNum {
-			okStart = true
+	okStart, posArg := loadStartsAfterPosition(m, ld)
+	c.Check("R1.2", "Converge/load-start=latest+1", ld.Pos(), okStart, "the range load fetches starts at (block number read by latest) + 1")
+	okHash := posArg >= 0
+	for _, a := range ld.Call.Args {
+		if m.isLatHash(a) {
+			okHash = true
 		}
 	}
-	c.Check("R1.2", "Converge/load-start=latest+1", ld.Pos(), okStart && localNum != nil, "start argument of load is (result #0 of latest) + 1")
-	c.Check("R1.2", "Converge/load-localHash=latest-hash", ld.Pos(), localHash != nil && stripConv(ld.Call.Args[3]) == localHash, "localHash argument of load is result #1 of the same latest call")
+	c.Check("R1.2", "Converge/load-localHash=latest-hash", ld.Pos(), okHash, "load is handed the hash read by the same latest call (as an argument of its own or inside the position)")
 
 	// ---- R1.3 ---------------------------------------------------------
 	c.Rule("R1.3", "first/last element access on a block slice is dominated by a proof that the slice is non-empty", 4)
@@ -278,7 +274,8 @@ func propC01Partition(c *Ctx, m *convergeModel, rule string) {
 		c.Violation(rule, "load$closure/Get", spawn.Pos(), "the partition closure does not call Source.Get")
 		return
 	}
-	var pStart, pLimit *ssa.Parameter
+	var pStart ssa.Value
+	var pLimit *ssa.Parameter
 	for _, p := range ld.Params {
 		switch p.Name() {
 		case "start":
@@ -287,10 +284,47 @@ func propC01Partition(c *Ctx, m *convergeModel, rule string) {
 			pLimit = p
 		}
 	}
-	if pStart == nil || pLimit == nil {
-		fatalf("anchor: load(ctx, url, localHash, start, limit) parameters not found")
+	ldReg := NewRegion(ld)
+	if pStart == nil {
+		// load is handed the recorded position as a whole and derives the start itself: the value that is
+		// (number of that position) + 1, computed in load or in a small method of the position (local.next())
+		for _, p := range ld.Params {
+			if _, isSt := p.Type().Underlying().(*types.Struct); !isSt {
+				continue
+			}
+			isNext := func(v ssa.Value) bool {
+				b, ok := stripNum(v).(*ssa.BinOp)
+				if !ok || b.Op != token.ADD {
+					return false
+				}
+				if n, ok := constInt(b.Y); !ok || n != 1 {
+					return false
+				}
+				_, path, okO := (&retScenario{reg: ldReg}).originOfParam(b.X, p)
+				return okO && len(path) == 1
+			}
+			allInstrs(ld, func(in ssa.Instruction) {
+				v, ok := in.(ssa.Value)
+				if !ok || pStart != nil || !isIntType(v.Type()) {
+					return
+				}
+				if isNext(v) {
+					pStart = v
+					return
+				}
+				if _, isCall := v.(*ssa.Call); isCall {
+					lvs := ldReg.Leaves(v)
+					if len(lvs) == 1 && isNext(lvs[0]) {
+						pStart = v
+					}
+				}
+			})
+		}
 	}
-	aff := &affEnv{reg: NewRegion(ld)}
+	if pStart == nil || pLimit == nil {
+		fatalf("anchor: load(ctx, url, localHash, start, limit): neither a start parameter nor a start derived from a position parameter found")
+	}
+	aff := &affEnv{reg: ldReg}
 	args := get.Common().Args
 	mArg, nArg := args[len(args)-2], args[len(args)-1]
 	mi, ms, mok := aff.strideOf(mArg)
@@ -601,4 +635,55 @@ func propC01InsertTiling(c *Ctx, m *convergeModel) {
 	if n == 0 {
 		c.Violation("R1.7", "insert/chunk", ins.Pos(), "insert hands the loaded blocks to no destination")
 	}
+}
+
+// loadStartsAfterPosition: the range load fetches starts at (number read by latest()) + 1: as an
+// argument, through a small method of the position (local.next()), or derived by load itself
+// from the position it is handed as a whole.  posArg: index of that whole-position argument, or -1.
+func loadStartsAfterPosition(m *convergeModel, ld *ssa.Call) (bool, int) {
+	start, _ := loadRangeArgs(ld)
+	okStart := false
+	if b, ok := start.(*ssa.BinOp); ok && b.Op == token.ADD {
+		if n, ok := constInt(b.Y); ok && n == 1 && m.isLatNum(b.X) {
+			okStart = true
+		}
+		if n, ok := constInt(b.X); ok && n == 1 && m.isLatNum(b.Y) {
+			okStart = true
+		}
+	}
+	// the start handed over through a helper of the position (local.next() = num + 1)
+	if !okStart && start != nil {
+		for _, lv := range m.reg.Leaves(start) {
+			if b, ok := stripNum(lv).(*ssa.BinOp); ok && b.Op == token.ADD {
+				if n, ok := constInt(b.Y); ok && n == 1 && m.isLatNum(b.X) {
+					okStart = true
+				}
+			}
+		}
+	}
+	// … or the whole position is handed to load, which derives the start itself: num + 1 of that parameter
+	posArg := -1
+	for i, a := range ld.Call.Args {
+		if m.isLatPosition(a) {
+			posArg = i
+		}
+	}
+	if !okStart && start == nil && posArg >= 0 && posArg < len(m.load.Params) {
+		lp := m.load.Params[posArg]
+		lreg := NewRegion(m.load)
+		lreg.AllInstrs(func(in ssa.Instruction) {
+			b, ok := in.(*ssa.BinOp)
+			if !ok || b.Op != token.ADD {
+				return
+			}
+			if n, ok := constInt(b.Y); !ok || n != 1 {
+				return
+			}
+			idx, path, okO := (&retScenario{reg: lreg}).originOfParam(b.X, lp)
+			if okO && idx == 0 && len(path) == 1 {
+				okStart = true
+			}
+		})
+	}
+	return okStart, posArg
 }
